@@ -406,7 +406,64 @@ def gen_case(rng, size=1.0, force=None):
         case["swap"] = {"sample": s, "chrom": c, "ps": p, "i": i, "j": j}
     if not force.get("no_boundary"):
         add_boundary_reads(case)
+    number_reads_per_sample(case, force.get("name_scheme"))
     return case
+
+
+# ------------------------------------------------------------------------------------------------
+# read names that are only unique within a sample (BAM merged from several runs / lanes)
+# ------------------------------------------------------------------------------------------------
+
+def number_reads_per_sample(case, scheme=None):
+    """In half of the cases with reads of several samples (read groups with different SM, read groups not ignored) the reads are
+    numbered per SAMPLE — r1, r2, … in every sample, as in a BAM merged from the BAMs of several sequencing runs, whose read
+    names are only unique within a run — so that nearly every read name occurs in every sample, on the same chromosomes.  The
+    records of one read (mates, supplementary, secondary records) keep a common name; names stay unique WITHIN a sample (also
+    across its read groups); the truth of every record is untouched: what a read must be tagged with depends on its alleles
+    and on the phasing of its sample only, never on its name.  'run-prefixed': the same numbers behind a run id that is shared
+    by some samples only (two samples sequenced on one flow cell).  The choice is drawn from a generator seeded by the case
+    content, so the stream of the main generator is unchanged."""
+    import random, zlib
+    rgs = case.get("read_groups")
+    if case["opts"].get("ignore_read_groups") or not rgs or len({sm for _, sm in rgs}) < 2:
+        return
+    rng = random.Random(zlib.crc32(repr((len(case["alns"]), sorted(case["contigs"]), case["ploidy"], [list(g) for g in rgs])).encode()) ^ 0x5EED)
+    if scheme is None:
+        scheme = rng.choice(["unique"] * 3 + ["per-sample"] * 2 + ["run-prefixed"])
+    if scheme == "unique":
+        return
+    sm_of = {rid: sm for rid, sm in rgs}
+    samples = []
+    for _, sm in rgs:
+        if sm not in samples:
+            samples.append(sm)
+    if scheme == "per-sample":
+        prefix = {sm: "r" for sm in samples}
+    else:
+        runs = ["runA:", "runB:"]
+        prefix = {sm: rng.choice(runs) for sm in samples}
+        if len(set(prefix.values())) == len(samples):          # make at least two samples share a run
+            prefix[samples[1]] = prefix[samples[0]]
+    # a sample's numbers in file order or in random order
+    new = {}
+    per = {}
+    for a in case["alns"]:
+        if a.get("chrom") is None or a.get("cigar") is None or a["name"].startswith(("unmapped", "onE")) or a.get("rg") not in sm_of:
+            continue
+        per.setdefault(sm_of[a["rg"]], [])
+        if a["name"] not in per[sm_of[a["rg"]]]:
+            per[sm_of[a["rg"]]].append(a["name"])
+    for sm, names in per.items():
+        nums = list(range(1, len(names) + 1))
+        if rng.random() < 0.5:
+            rng.shuffle(nums)
+        for old, k in zip(names, nums):
+            new[(sm, old)] = f"{prefix[sm]}{k}"
+    for a in case["alns"]:
+        key = (sm_of.get(a.get("rg")), a["name"])
+        if a.get("chrom") is not None and a.get("cigar") is not None and key in new:
+            a["name"] = new[key]
+    case["name_scheme"] = scheme + (" numbering" if scheme == "per-sample" else "")
 
 
 # ------------------------------------------------------------------------------------------------
